@@ -23,23 +23,27 @@ Inductive dstmt :=
 
 (* the inputs of a run: which capabilities the server has, which equalities between an input and
    a literal hold, the values of the fields that are read before being assigned *)
-Record denv := mkEnv { e_has : string -> bool; e_eq : string -> string -> bool; e_field : string -> string;
-                       e_atom : string -> option bool }.
-
 Definition store := list (string * string).
 Fixpoint sget (s : store) (k : string) : option string :=
   match s with [] => None | (k', v) :: t => if String.eqb k k' then Some v else sget t k end.
 
+(* [e_eqs] answers equalities that depend on what the run has assigned so far (e.g. `current ==
+   target` after `current = ...`): Some (Some b) = decided, Some None = evaluating it would panic
+   in Go (the run is stuck), None = not store-dependent, ask [e_eq] *)
+Record denv := mkEnv { e_has : string -> bool; e_eq : string -> string -> bool; e_field : string -> string;
+                       e_atom : string -> option bool;
+                       e_eqs : store -> string -> string -> option (option bool) }.
+
 Inductive dres := Running (s : store) | Returned (s : store) (v : string) | Stuck.
 
-Fixpoint eval (env : denv) (e : dexpr) : option bool :=
+Fixpoint eval (env : denv) (s : store) (e : dexpr) : option bool :=
   match e with
   | DHas c => Some (e_has env c)
-  | DEq a b => Some (e_eq env a b)
+  | DEq a b => match e_eqs env s a b with Some r => r | None => Some (e_eq env a b) end
   | DAtom a => e_atom env a
-  | DNot x => option_map negb (eval env x)
-  | DAnd a b => match eval env a, eval env b with Some x, Some y => Some (x && y) | _, _ => None end
-  | DOr a b => match eval env a, eval env b with Some x, Some y => Some (x || y) | _, _ => None end
+  | DNot x => option_map negb (eval env s x)
+  | DAnd a b => match eval env s a, eval env s b with Some x, Some y => Some (x && y) | _, _ => None end
+  | DOr a b => match eval env s a, eval env s b with Some x, Some y => Some (x || y) | _, _ => None end
   | DUnknown _ => None
   end.
 
@@ -60,7 +64,7 @@ Fixpoint exec (fuel : nat) (env : denv) (l : list dstmt) (s : store) : dres :=
           match st with
           | DAssign k v => exec f env rest ((k, v) :: s)
           | DIf c t e =>
-              match eval env c with
+              match eval env s c with
               | Some true => continue (exec f env t s)
               | Some false => continue (exec f env e s)
               | None => Stuck
